@@ -574,6 +574,14 @@ def run(ctx):
     for g_, missing in sorted(cov.items(), key=lambda kv: kv[0].id):
         ctx.check(not missing, R8, 'mount_point::%s:copies-every-pattern-and-selector' % ('mount_point(mount_point const&)' if g_.kind == 'ctor' else 'operator='),
                   'the copy does not take %s from the source: the copy stored in the pool matches requests the original would refuse' % [x.rsplit('::', 1)[-1] for x in missing], g_.where)
+    # generated URLs are collected in a stack-then-heap stream buffer (steal_buffer, instantiated by url_mapper.cpp): growing it keeps the byte that did not fit
+    sbo = [g for g in P.fns.values() if g.short == 'overflow' and 'stackbuf' in (g.record or '') and g.body is not None and len(g.params) == 1]
+    ctx.require(sbo or ctx.violations, 'C20.R8: util::stackbuf<N>::overflow(int) not found in url_mapper.cpp')
+    for g_ in sorted(sbo, key=lambda g: g.id)[:1]:
+        dr_ = q.overflow_drops_char(g_)
+        nb_ = q.narrowed_char_eof_tests(g_)
+        ctx.check(not dr_ and not nb_, R8, 'stackbuf::overflow:takes-the-character', 'overflow(c) can report success without having taken c, or tests EOF on a narrowed char: a generated URL longer than the '
+                  'stack area loses the byte at the boundary', g_.loc((dr_ + nb_)[0]) if dr_ or nb_ else g_.where)
     ctx.floor(R8, 20)
     if pending_broken and not ctx.violations:
         raise AnalysisBroken(pending_broken[0])
@@ -631,4 +639,34 @@ def run(ctx):
             ctx.check(via_root or (of_child and f.short == 'mount'), R7, '%s:helpers#%d:root-most-table' % (f.short, n7),
                       'keyword defaults are stored in / read from a mapper that is not the root-most one: real_map() never looks there', f.loc(i))
     ctx.require(n7 >= 4 or ctx.violations, 'C20.R7: accesses to url_mapper::data::helpers not found')
+    # the last component of a mapping key may be "." / ".." (this mapper / its parent) whether or not a ";keyword" list follows: every way the component is cut out of the key
+    # reaches the lookup only through both comparisons
+    gm = [f for f in um if f.short == 'get_mapper_for_key' and f.body is not None]
+    ctx.require(len(gm) == 1, 'C20.R7: url_mapper::get_mapper_for_key not found')
+    for f in gm:
+        rk = q.param_by_index(f, 1)
+        asg = [i for i in f.all_nodes() if f.N(i)['k'] == 'CXXOperatorCallExpr' and f.N(i).get('op') == '=' and f.args(i) and f.ref_of(f.args(i)[0]) == rk]
+        look = [i for i in f.calls() if q.short_of(f.callee(i) or '') == 'is_app']
+        def cmp_with(lit):
+            return [i for i in f.all_nodes() if f.N(i)['k'] == 'CXXOperatorCallExpr' and f.N(i).get('op') == '==' and rk in f.subtree_refs(i) and
+                    lit in [f.N(j).get('s') for j in f.walk(i) if f.N(j)['k'] == 'StringLiteral']]
+        ctx.check(len(asg) >= 2 and len(look) == 1, R7, 'get_mapper_for_key:last-component-cut-and-looked-up', 'found %d assignments of the last component and %d lookups' % (len(asg), len(look)), f.where)
+        for lit in ('.', '..'):
+            cs = cmp_with(lit)
+            for k_, a_ in enumerate(asg):
+                ok_ = bool(cs) and bool(look)
+                if ok_ and lit == '..':
+                    # behind a "." that matched there is nothing left to compare: the ".." test has to lie on a way from the cut to the lookup
+                    ok_ = any(q.between(f, a_, c_, look[0]) for c_ in cs)
+                elif ok_:
+                    pa, pl = f.last_point_of(a_), f.point_of(look[0])
+                    cb = q.blocks_of(f, cs)
+                    if pa[0] == pl[0] and pa[1] < pl[1]:
+                        ok_ = any(f.point_of(c_)[0] == pa[0] and pa[1] < f.point_of(c_)[1] < pl[1] for c_ in cs)
+                    else:
+                        after_in_block = any(f.point_of(c_)[0] == pa[0] and f.point_of(c_)[1] > pa[1] for c_ in cs)
+                        reach = f.reachable_blocks(start=pa[0], cut_blocks=(cb - {pa[0]}) | f.abnormal_blocks(), with_catch=False)
+                        ok_ = after_in_block or pl[0] not in reach or (pl[0] in cb and any(f.point_of(c_)[0] == pl[0] and f.point_of(c_)[1] < pl[1] for c_ in cs))
+                ctx.check(ok_, R7, 'get_mapper_for_key:component#%d:compared-with-%s-before-the-lookup' % (k_, 'dot' if lit == '.' else 'dotdot'),
+                          'a last component cut out of the key reaches is_app() without having been compared with "%s": "%s;keyword" is looked up as an ordinary name' % (lit, lit), f.loc(a_))
     ctx.floor(R7, 4)
